@@ -789,13 +789,34 @@ func runC09(c Case) (res obs.Result) {
 			res.Class = "not-cached"
 			return
 		}
-	default: // the request failed: every caller gets an error, nothing is cached
+	default: // the request failed: every caller that waited on it gets an error, nothing is cached
+		// A caller whose goroutine only got to run after the failure had been delivered legitimately starts a
+		// new request; its value then comes with a further server request (the failed one produced none).
+		late := 0
 		for i, o := range outs {
 			if o.err == nil {
-				res.Oracle = fmt.Sprintf("the request failed (%s) but caller %d got the value %q (hit=%v)", c.Kind, i, o.val, o.hit)
+				late++
+				if o.val != "v:"+key {
+					res.Oracle = fmt.Sprintf("caller %d got %q", i, o.val)
+					res.Class = "wrong-reply"
+					return
+				}
+			}
+		}
+		if outs[0].err == nil {
+			res.Oracle = fmt.Sprintf("the request failed (%s) but its own caller got the value %q", c.Kind, outs[0].val)
+			res.Class = "value-from-failed-request"
+			return
+		}
+		if late > 0 {
+			if c.Kind == "c09-abort" && gets < 2 {
+				res.Oracle = fmt.Sprintf("%d callers got a value although the only request was aborted", late)
 				res.Class = "value-from-failed-request"
 				return
 			}
+			res.Obs = map[string]any{"callers": c.Callers, "server_requests": gets, "late_callers": late}
+			res.Nontrivial = false
+			return
 		}
 		var r rueidis.RedisResult
 		ok := false
